@@ -91,6 +91,89 @@ Fixpoint strictly_ascending (l : list Z) : bool :=
   | _ => true
   end.
 
+(** ** From the route to the payloads: [build_onion_payloads] / [build_onion_payloads_callback]
+    for a path of plain hops with an optional blinded tail (no trampoline).  The loop runs over the
+    hops in reverse; [cur_value_msat] and [cur_cltv] accumulate the fees and CLTV deltas of the hops
+    already seen; the last hop's payloads are pushed back, forward payloads are pushed to the front. *)
+Record route_hop : Type := mk_route_hop { rh_scid : Z; rh_fee_msat : Z; rh_cltv_delta : Z }.
+
+(** [TailDetails::Blinded { hops, blinding_point, final_value_msat, excess_final_cltv_expiry_delta }]
+    as [build_onion_payloads] fills it from the route's [BlindedTail]; [bt_hops]: the
+    [encrypted_payload] of each blinded hop *)
+Record blinded_tail : Type := mk_blinded_tail {
+  bt_hops : list bytes; bt_blinding_point : bytes; bt_final_value_msat : Z; bt_excess_final_cltv_expiry_delta : Z }.
+
+Record recipient_fields : Type := mk_recipient {
+  rf_payment_secret : option bytes; rf_total_mpp_amount_msat : Z; rf_payment_metadata : option bytes;
+  rf_custom_tlvs : list tlv }.
+
+Definition MAX_VALUE_MSAT_LIMIT : Z := 21000000 * 100000000 * 1000.
+Definition CLTV_LIMIT : Z := 500000000.
+Definition sat_add_u32 (a b : Z) : Z := Z.min (a + b) 4294967295.
+
+(** the payloads of a blinded tail: all but the last hop forward, the first carries the blinding point *)
+Fixpoint blinded_payloads (hops : list bytes) (bp : option bytes) (last : bytes -> option bytes -> onion_payload)
+  : list onion_payload :=
+  match hops with
+  | [] => []
+  | [e] => [last e bp]
+  | e :: r => PBlindedForward e bp :: blinded_payloads r None last
+  end.
+
+(** the loop state: iteration index, payloads so far, [cur_value_msat], [cur_cltv], [last_hop_id] *)
+Definition pl_state : Type := (nat * list onion_payload * Z * Z * option Z)%type.
+
+(** one iteration of [for (idx, hop) in hops.rev().enumerate()]; [None] is the [Err(APIError::InvalidRoute)] *)
+Definition payload_step (tail : option blinded_tail) (rf : recipient_fields) (cur_block_height : Z)
+           (keysend invreq : option bytes) (st : option pl_state) (hop : route_hop) : option pl_state :=
+  match st with
+  | None => None
+  | Some (idx, res, cur_value_msat, cur_cltv, last_hop_id) =>
+      let value_msat := if cur_value_msat =? 0 then rh_fee_msat hop else cur_value_msat in
+      let pushed : option (list onion_payload * Z) :=
+        match idx with
+        | O =>
+            match tail with
+            | Some bt =>
+                let last := fun e bp =>
+                  PBlindedReceive (bt_final_value_msat bt) (rf_total_mpp_amount_msat rf)
+                                  (cur_block_height + bt_excess_final_cltv_expiry_delta bt) e bp keysend
+                                  (rf_custom_tlvs rf) invreq in
+                Some (res ++ blinded_payloads (bt_hops bt) (Some (bt_blinding_point bt)) last,
+                      match bt_hops bt with [] => cur_value_msat | _ :: _ => cur_value_msat + bt_final_value_msat bt end)
+            | None =>
+                let declared_incoming_cltv := sat_add_u32 (rh_cltv_delta hop) cur_cltv in
+                Some (res ++ [PReceive (option_map (fun s => (s, rf_total_mpp_amount_msat rf)) (rf_payment_secret rf))
+                                       (rf_payment_metadata rf) keysend (rf_custom_tlvs rf) value_msat
+                                       declared_incoming_cltv],
+                      cur_value_msat)
+            end
+        | S _ =>
+            match last_hop_id with
+            | None => None
+            | Some next_scid => Some (PForward next_scid value_msat cur_cltv :: res, cur_value_msat)
+            end
+        end in
+      match pushed with
+      | None => None
+      | Some (res, cur_value_msat) =>
+          let cur_value_msat := cur_value_msat + rh_fee_msat hop in
+          if MAX_VALUE_MSAT_LIMIT <=? cur_value_msat then None
+          else let cur_cltv := sat_add_u32 cur_cltv (rh_cltv_delta hop) in
+               if CLTV_LIMIT <=? cur_cltv then None
+               else Some (S idx, res, cur_value_msat, cur_cltv, Some (rh_scid hop))
+      end
+  end.
+
+(** [build_onion_payloads]: the payloads, the first hop's HTLC amount and expiry *)
+Definition build_payloads (hops : list route_hop) (tail : option blinded_tail) (rf : recipient_fields)
+           (cur_block_height : Z) (keysend invreq : option bytes) : option (list onion_payload * Z * Z) :=
+  match fold_left (payload_step tail rf cur_block_height keysend invreq) (rev hops)
+                  (Some (O, [], 0, cur_block_height, None)) with
+  | Some (_, res, v, c, _) => Some (res, v, c)
+  | None => None
+  end.
+
 (** ** The receiving side's TLV loop (C13's [Codec/Tlv.v], the transliteration of
     [_decode_tlv_stream_range!]) run on a payload: the types the onion payload reader knows plus the
     custom types of this payment, every value taken as raw bytes.  It rejects a stream whose types
@@ -115,4 +198,15 @@ Definition show_tlv_check (custom_types : list Z) (content : string) : string * 
   match onion_tlv_types custom_types (hx content) with
   | U64.ROk ts => ("ok", ts)
   | U64.RErr e => (e, [])
+  end.
+
+(** all payloads of a route, as hex TLV streams (["ERR"] when the builder refuses) *)
+Definition show_route_payloads (hops : list (Z * Z * Z)) (tail : option (list string * string * Z * Z))
+           (secret : string) (total : Z) (meta : string) (custom : list (Z * string))
+           (height : Z) (keysend invreq : string) : list string * list Z :=
+  let rh := map (fun h => mk_route_hop (fst (fst h)) (snd (fst h)) (snd h)) hops in
+  let bt := option_map (fun t => mk_blinded_tail (map hx (fst (fst (fst t)))) (hx (snd (fst (fst t)))) (snd (fst t)) (snd t)) tail in
+  match build_payloads rh bt (mk_recipient (hx_opt secret) total (hx_opt meta) (hx_tlvs custom)) height (hx_opt keysend) (hx_opt invreq) with
+  | None => (["ERR"], [])
+  | Some (ps, v, c) => (map show_payload ps, [v; c])
   end.
